@@ -9,7 +9,10 @@ AUX = c01.AUX + [
     ('Z', ('class', None, [('p', False, ('opt', A))])),
     ('E', ('rule', None, ('str', ''))),
     ('W', ('class', None, [('xs', False, ('star', ('ref', 'K'))), ('t', False, ('opt', ('ref', 'Z')))])),
+    ('Q', ('class', ['n', 'tag'], [('xs', False, ('rep', A, 'n', 'n')), ('v', False, ('py', '(n, tag)'))])),
 ]
+# parameterised class as entry point: Q.parse(n, tag)(text, pos, fullparse)
+Q_ENTRIES = [('Q', None, (0, 'x')), ('Q', None, (2, None))]
 AUXD = dict(AUX)
 # further leaves: class references (incl. one whose instances span many characters), a predicate on a
 # literal, a regex that matches the empty string but can still fail, an end anchor
@@ -77,7 +80,7 @@ def jobs(tier):
             if sname == 'Start' and d[0] != 'class':
                 continue
             rules = [(sname, d)] + AUX
-            entries = [(None, None)] + [(n, None) for n, _ in rules]
+            entries = [(None, None)] + [(n, None) for n, d_ in rules if not d_[1]] + Q_ENTRIES
             noshift = (c01.hasback(d[2]) or "('re', '$')" in repr(d[2])) if d[0] == 'rule' else False
             mods = [(tuple(rules), (), sname, None, (), False, 'named', None)]
             yield {'mods': mods, 'inputs': inp, 'mode': 'spans', 'entries': entries,
